@@ -58,6 +58,7 @@ type Frame struct {
 	top      bool
 	entry    *State
 	curBlk   *ssa.BasicBlock
+	curPos   token.Pos
 	results  []Value
 	loops    map[*ssa.BasicBlock]*loopInfo
 	contract *Contract
@@ -386,6 +387,9 @@ func (x *Exec) execFunction(fr *Frame, st *State) (*State, []Value) {
 		for _, in := range b.Instrs {
 			if _, ok := in.(*ssa.Phi); ok {
 				continue
+			}
+			if in.Pos().IsValid() {
+				fr.curPos = in.Pos()
 			}
 			switch in := in.(type) {
 			case *ssa.If:
@@ -784,6 +788,14 @@ func (x *Exec) enterLoop(fr *Frame, li *loopInfo, st *State) {
 	for _, c := range cs {
 		if old, ok := st.cells[c]; ok {
 			nv := x.fresh(c.Type().(*types.Pointer).Elem(), "lp."+c.Comment)
+			if os, isS := old.(VSlice); isS && os.Back.Imm.Valid() {
+				// a slice variable that held a configuration object's slice before the loop may
+				// still hold it in an arbitrary iteration
+				if ns, ok := nv.(VSlice); ok {
+					ns.Back.Imm, ns.Back.ImmType = os.Back.Imm, os.Back.ImmType
+					nv = ns
+				}
+			}
 			st.cells[c] = nv
 			// inferred invariant: cells only ever incremented (decremented) by positive constants
 			if dir, ok := mono[c]; ok {
@@ -1016,7 +1028,11 @@ func (x *Exec) loadField(st *State, obj Term, stt *types.Struct, skey string, i 
 		return VIface{tag, val}
 	case KSlice:
 		x.notFutureRef(Select(x.heapGet(st, key+"#b", arrOf(SInt)), obj))
-		sv := VSlice{Backing{Heap: true, Ref: Select(x.heapGet(st, key+"#b", arrOf(SInt)), obj)},
+		imm, immT := Term{}, ""
+		if x.eng.contracts.Immutable[skey] != nil && !isFreshRef(obj) {
+			imm, immT = Select(x.heapGet(st, key+"#b", arrOf(SInt)), obj), skey
+		}
+		sv := VSlice{Backing{Heap: true, Ref: Select(x.heapGet(st, key+"#b", arrOf(SInt)), obj), Imm: imm, ImmType: immT},
 			Select(x.heapGet(st, key+"#o", arrOf(SInt)), obj), Select(x.heapGet(st, key+"#l", arrOf(SInt)), obj), Select(x.heapGet(st, key+"#c", arrOf(SInt)), obj)}
 		x.fact("slice:"+sv.Len.S, And(Ge(sv.Off, IntLit(0)), Ge(sv.Len, IntLit(0)), Le(sv.Len, sv.Cap), Le(sv.Cap, BigLit(pow2(48)))))
 		return sv
@@ -1111,6 +1127,16 @@ func (x *Exec) immutCheck(fr *Frame, st *State, typeKey string, obj Term, what s
 	if im == nil || x.top == nil || x.inSpec {
 		return
 	}
+	if x.immutExcepted(im) {
+		return
+	}
+	if isFreshRef(obj) {
+		return
+	}
+	x.oblige(fr, st, "immut", what+":"+x.srcText(fr.fn, pos, isAny), "write to immutable configuration object ("+what+") outside the registration functions", pos, Lt(obj, IntLit(0)), []string{"C15", "C17"})
+}
+
+func (x *Exec) immutExcepted(im *TypeInv) bool {
 	excepted := func(k string) bool {
 		if im.Except[k] {
 			return true
@@ -1123,17 +1149,14 @@ func (x *Exec) immutCheck(fr *Frame, st *State, typeKey string, obj Term, what s
 		return false
 	}
 	if excepted(fnKey(x.top, x.eng.home)) {
-		return
+		return true
 	}
 	for _, f := range x.inlineStack {
 		if excepted(fnKey(f, x.eng.home)) {
-			return
+			return true
 		}
 	}
-	if isFreshRef(obj) {
-		return
-	}
-	x.oblige(fr, st, "immut", what+":"+x.srcText(fr.fn, pos, isAny), "write to immutable configuration object ("+what+") outside the registration functions", pos, Lt(obj, IntLit(0)), []string{"C15", "C17"})
+	return false
 }
 
 // fact asserts a type-level fact about a term once.
@@ -1329,6 +1352,12 @@ func (x *Exec) loadElem(fr *Frame, st *State, b Backing, idx Term, et types.Type
 }
 
 func (x *Exec) storeElem(fr *Frame, st *State, b Backing, idx Term, et types.Type, v Value) {
+	if b.Heap && b.Imm.Valid() && !x.inSpec {
+		// element write through a slice that was read from a configuration object
+		if im := x.eng.contracts.Immutable[b.ImmType]; im != nil && x.top != nil && !x.immutExcepted(im) {
+			x.oblige(fr, st, "immut", "elem:"+b.ImmType, "element write into a slice that belongs to an immutable configuration object ("+b.ImmType+")", fr.curPos, Neq(b.Ref, b.Imm), []string{"C15", "C17"})
+		}
+	}
 	if !b.Heap {
 		arr := x.loadAddr(fr, st, *b.Loc, nil, token.NoPos)
 		if at, ok := arr.(VTerm); ok && strings.HasPrefix(string(at.T.Sort), "(Array") {
